@@ -166,6 +166,12 @@ func (mh *mainHandler) handle(w http.ResponseWriter, r *http.Request) error {
 
 		// Check if the Origin matches the Host.
 		switch {
+		case originURL.Host == "":
+			// An Origin without a host (eg. "null") matches nothing, also not
+			// a request without a Host.
+			tracer.Warningf("api: denied request from %s: Origin (`%s`) has no host", r.RemoteAddr, origin)
+			http.Error(lrw, "Cross-Origin Request Denied.", http.StatusForbidden)
+			return nil
 		case originURL.Host == r.Host:
 			// Origin (with port) matches Host.
 		case originURL.Hostname() == r.Host:
